@@ -71,7 +71,8 @@ def source_hash(func):
 
 
 def is_repo_function(f):
-    return isinstance(f, types.FunctionType) and (f.__module__ or "").startswith(REPO_PREFIX)
+    return isinstance(f, types.FunctionType) and (f.__module__ or "").startswith(REPO_PREFIX) \
+        and not f.__code__.co_filename.startswith("<")
 
 
 def is_repo_class(c):
@@ -184,9 +185,7 @@ class Interp:
         if is_repo_class(cls):
             import dataclasses
             obj = SymObj(cls)
-            if dataclasses.is_dataclass(cls) and "__init__" not in cls.__dict__.get("__annotations__", {}) \
-                    and getattr(cls.__init__, "__qualname__", "").startswith("__create_fn__") or \
-                    (dataclasses.is_dataclass(cls) and not is_repo_function(cls.__init__)):
+            if dataclasses.is_dataclass(cls) and not is_repo_function(inspect.getattr_static(cls, "__init__", None)):
                 flds = [fl for fl in dataclasses.fields(cls) if fl.init]
                 vals = {}
                 for fl, a in zip(flds, args):
